@@ -545,6 +545,14 @@ def sig_of(case, what, kind):
 def run(ctx):
     global _LAYOUT
     _LAYOUT = gcc_layouts()
+    # numbered anonymous structs ('$1', ...) declared by several FFIs of an include chain
+    from . import _c34_anon as AN
+    for k, case in enumerate(AN.cases()):
+        ctx.count("anon_numbered_cases")
+        for what, owner, user, info in AN.run_case(case, "r%d" % k):
+            ctx.violation({"kind": "anon_numbered", "what": what, "mode": "abi" if case[2] == "ool" else "inline"},
+                          {"anon_numbered": True, "case": [list(case[0]), list(case[1]), case[2]],
+                           "owner": owner, "seen_through": user, "info": info})
     kmax = 2 if ctx.quick else 3
     dus = list(du_space(kmax))
     n_na = sum(1 for k in KINDS for u in USAGES if not applicable(k, u))
@@ -647,6 +655,13 @@ def _dispatch(x):
 
 
 def replay(detail):
+    if detail.get("anon_numbered"):
+        from . import _c34_anon as AN
+        c = detail["case"]
+        bad = AN.run_case((tuple(c[0]), tuple(c[1]), c[2]), "replay")
+        for b in bad:
+            print("MISMATCH", b)
+        return 1 if bad else 0
     global _LAYOUT
     _LAYOUT = gcc_layouts()
     mode, du, topo, order, hist = detail["case"]
